@@ -4,6 +4,7 @@ import (
 	"bytes"
 	"errors"
 	"fmt"
+	"math"
 	"strconv"
 	"strings"
 
@@ -410,7 +411,7 @@ func (nd *KVNode) zincrbyCommand(cmd redcon.Command) (interface{}, error) {
 		err := fmt.Errorf("ERR wrong number arguments for '%v' command", string(cmd.Args[0]))
 		return nil, err
 	}
-	_, err := strconv.ParseFloat(string(cmd.Args[2]), 64)
+	_, err := parseScore(cmd.Args[2])
 	if err != nil {
 		return nil, err
 	}
@@ -483,10 +484,22 @@ func (nd *KVNode) zremrangebylexCommand(cmd redcon.Command) (interface{}, error)
 	return v, nil
 }
 
+// parseScore parses a zset score; NaN is not a valid score (it has no place in the score order)
+func parseScore(d []byte) (float64, error) {
+	s, err := strconv.ParseFloat(string(d), 64)
+	if err != nil {
+		return 0, err
+	}
+	if math.IsNaN(s) {
+		return 0, errors.New("ERR value is not a valid float")
+	}
+	return s, nil
+}
+
 func getScorePairs(args [][]byte) ([]common.ScorePair, error) {
 	mlist := make([]common.ScorePair, 0, len(args)/2)
 	for i := 0; i < len(args); i += 2 {
-		s, err := strconv.ParseFloat(string(args[i]), 64)
+		s, err := parseScore(args[i])
 		if err != nil {
 			return nil, err
 		}
@@ -509,7 +522,7 @@ func (kvsm *kvStoreSM) localZaddCommand(cmd redcon.Command, ts int64) (interface
 }
 
 func (kvsm *kvStoreSM) localZincrbyCommand(cmd redcon.Command, ts int64) (interface{}, error) {
-	delta, err := strconv.ParseFloat(string(cmd.Args[2]), 64)
+	delta, err := parseScore(cmd.Args[2])
 	if err != nil {
 		return nil, err
 	}
